@@ -33,7 +33,7 @@ func init() {
 		modes: func(tier string, seed int64) []modeSpec {
 			n := 600
 			if tier == "thorough" {
-				n = 15000
+				n = 30000
 			}
 			return []modeSpec{
 				{name: "es", n: n, perChild: n / 16, timeout: 20 * time.Minute},
